@@ -493,61 +493,37 @@ func (g *DependencyGraph) detectCyclesFrom(start NodeKey) error {
 	return nil
 }
 
-// findCyclePath reconstructs the cycle path for error reporting
+// findCyclePath reconstructs the cycle path for error reporting.
+// The result starts and ends with start and every step is an edge of the graph.
 func (g *DependencyGraph) findCyclePath(start NodeKey) []NodeKey {
-	path := []NodeKey{}
 	visited := make(map[NodeKey]bool)
-	parent := make(map[NodeKey]NodeKey)
+	path := []NodeKey{}
 
-	// Use BFS to find the cycle more efficiently
 	var findPath func(current NodeKey) bool
 	findPath = func(current NodeKey) bool {
-		if visited[current] {
-			// Found a node we've seen before - reconstruct cycle
-			cycle := []NodeKey{current}
-			for p := parent[current]; p != current && !visited[p]; p = parent[p] {
-				cycle = append([]NodeKey{p}, cycle...)
-				visited[p] = true
-
-				// Safety check to prevent infinite loop
-				if len(cycle) > len(g.nodes) {
-					break
-				}
-			}
-			path = cycle
-			return true
-		}
-
 		visited[current] = true
+		path = append(path, current)
 
-		if edges, exists := g.edges[current]; exists {
-			for _, next := range edges {
-				if _, hasParent := parent[next]; !hasParent {
-					parent[next] = current
-				}
+		for _, next := range g.edges[current] {
+			if next == start {
+				path = append(path, start)
+				return true
+			}
 
-				if next == start || findPath(next) {
-					if len(path) == 0 {
-						path = []NodeKey{current}
-					} else if path[0] != current {
-						path = append([]NodeKey{current}, path...)
-					}
-					return true
-				}
+			if !visited[next] && findPath(next) {
+				return true
 			}
 		}
 
+		path = path[:len(path)-1]
 		return false
 	}
 
-	findPath(start)
-
-	// Ensure the path shows the complete cycle
-	if len(path) > 0 && path[len(path)-1] != start {
-		path = append(path, start)
+	if findPath(start) {
+		return path
 	}
 
-	return path
+	return []NodeKey{}
 }
 
 // GetDependencies returns the direct dependencies of a service
